@@ -1,1 +1,241 @@
-import RaftLogModel.Spec.RefLog
+/-
+C01 — The store refines a plain in-memory Raft log.
+
+After any sequence of accepted, Raft-legal writes (vote, append, truncate,
+purge, commit, user data), interleaved with flushes and worker steps of any
+outcome, reading any index range returns exactly the entries appended and not
+since truncated or purged, in index order, with their log id and payload, and
+the reported state is the reference log's (`RefLog`, Spec/RefLog.lean). The
+statement holds for every configuration, so the chunk limits are invisible.
+
+Quantification: histories of `.call`, `.flush`, `.worker out`, `.workerIdle`
+steps from a store opened on an empty directory, whose calls are legal and
+accepted by the reference log, with no log index equal to u64::MAX
+(`Op.small`, the class excluded by C16) and whose appended entries fit the
+payload cache (no eviction; reads after eviction are another property).
+
+Helper lemmas: Proofs/Refine.lean.
+-/
+import RaftLogModel.Proofs.Refine
+namespace RaftLog
+
+/-! ### The step theorem (store level) -/
+
+/-- One legal, accepted op on a store that refines `r`, with no chunk file at
+or beyond the journal end and enough cache room for what the op appends: the
+call returns `ok`, and the new store refines the new reference log. `Growth`
+says the journal end only moved forward, every file created has an id in
+`[old end, new end)`, and the cache grew by at most the appended entries. -/
+theorem c01_step (s : Store) (r r' : RefLog) (fsHas : Nat → Bool) (op : Op)
+    (h : Refines s r) (hfs : ∀ i, s.openEnd ≤ i → fsHas i = false)
+    (hl : r.legal op = true) (hc : r.call op = .ok r') (hsm : op.small)
+    (hn : s.cache.items.length + op.count ≤ s.cache.maxItems)
+    (hb : s.cache.size + op.bytes ≤ s.cache.capacity) :
+    (∃ seg, (s.call fsHas op).1 = .ok seg) ∧ Refines (s.call fsHas op).2.1 r' ∧
+      Growth s (s.call fsHas op).2.1 (s.call fsHas op).2.2 op.count op.bytes := by
+  obtain ⟨seg, s', effs, heq, href, hg⟩ := call_refines fsHas h hfs hl hc hsm hn hb
+  rw [heq]
+  exact ⟨⟨seg, rfl⟩, href, hg⟩
+
+/-- Every legal accepted op keeps the reference log well-formed. -/
+theorem c01_spec_wf (r r' : RefLog) (op : Op) (h : r.WF) (hl : r.legal op = true)
+    (hc : r.call op = .ok r') : r'.WF :=
+  RefLog.call_wf h hl hc
+
+/-! ### The read theorem -/
+
+/-- Reading any range of a refining store returns exactly the reference log's
+entries in that range, for every file system: each lookup is a cache hit. -/
+theorem c01_read (s : Store) (r : RefLog) (h : Refines s r) (fs : Fs) (a b : Nat) :
+    (s.read fs a b).1 = (r.read a b).map (fun e => ReadItem.ok e.1 e.2) :=
+  h.read fs a b
+
+theorem c01_iter (s : Store) (r : RefLog) (h : Refines s r) (fs : Fs) :
+    s.iter fs = r.entries.map (fun e => ReadItem.ok e.1 e.2) :=
+  h.iter fs
+
+/-- The reported state is the reference log's. -/
+theorem c01_state (s : Store) (r : RefLog) (h : Refines s r) : s.st = r.state := h.st
+
+/-! ### History theorem, store level -/
+
+/-- Fold `Store.call` over a list of ops (results dropped). -/
+def Store.runOps (fsHas : Nat → Bool) (s : Store) (ops : List Op) : Store :=
+  ops.foldl (fun s o => (s.call fsHas o).2.1) s
+
+/-- Store-level history: starting from a refining store, with no chunk file at
+or beyond the journal end (calls only create files below the new end, so a
+fixed `fsHas` stays suitable), every call of a legal accepted history returns
+`ok` and the final store refines the final reference log. -/
+theorem c01_refines_store (fsHas : Nat → Bool) (ops : List Op) :
+    ∀ (s : Store) (r r' : RefLog), Refines s r → (∀ i, s.openEnd ≤ i → fsHas i = false) →
+    r.run ops = some r' → (∀ op ∈ ops, op.small) →
+    s.cache.items.length + opsCount ops ≤ s.cache.maxItems →
+    s.cache.size + opsBytes ops ≤ s.cache.capacity →
+    Refines (s.runOps fsHas ops) r' ∧
+    ∀ pre op post, ops = pre ++ op :: post →
+      ∃ seg, ((s.runOps fsHas pre).call fsHas op).1 = .ok seg := by
+  induction ops with
+  | nil =>
+    intro s r r' h _ hr _ _ _
+    simp only [RefLog.run, Option.some.injEq] at hr
+    subst hr
+    refine ⟨h, ?_⟩
+    intro pre op post hsplit
+    cases pre <;> cases hsplit
+  | cons op rest ih =>
+    intro s r r' h hfs hr hsm hn hb
+    simp only [RefLog.run] at hr
+    simp only [opsCount, opsBytes] at hn hb
+    split at hr
+    · rename_i hl
+      split at hr
+      · rename_i r1 hc
+        obtain ⟨seg, s', effs, heq, href, hg⟩ :=
+          call_refines fsHas h hfs hl hc (hsm op List.mem_cons_self) (by omega) (by omega)
+        have hs' : (s.call fsHas op).2.1 = s' := by rw [heq]
+        obtain ⟨g1, g2⟩ := ih s' r1 r' href
+          (fun i hi => hfs i (by have := hg.openEnd; omega)) hr
+          (fun o ho => hsm o (List.mem_cons_of_mem _ ho))
+          (by have := hg.items; have := hg.maxItems; omega)
+          (by have := hg.size; have := hg.capacity; omega)
+        refine ⟨by simp only [Store.runOps, List.foldl_cons, hs']; exact g1, ?_⟩
+        intro pre op' post hsplit
+        cases pre with
+        | nil =>
+          simp only [List.nil_append, List.cons.injEq] at hsplit
+          obtain ⟨hop, _⟩ := hsplit
+          subst hop
+          exact ⟨seg, by simp only [Store.runOps, List.foldl_nil, heq]⟩
+        | cons p pre' =>
+          simp only [List.cons_append, List.cons.injEq] at hsplit
+          obtain ⟨hp, hrest⟩ := hsplit
+          subst hp
+          simp only [Store.runOps, List.foldl_cons, hs']
+          exact g2 pre' op' post hrest
+      · cases hr
+    · cases hr
+
+/-! ### History theorem, system level: the property -/
+
+theorem SysRef.mono {y : Sys} {r : RefLog} {n b n' b' : Nat} (h : SysRef y r n b)
+    (hn : n' ≤ n) (hb : b' ≤ b) : SysRef y r n' b' := by
+  obtain ⟨s, hs, href, hfs, h1, h2⟩ := h
+  exact ⟨s, hs, href, hfs, by omega, by omega⟩
+
+/-- **C01.** For every configuration and every history of calls, flushes and
+worker steps (any outcome, any interleaving) on a store opened on an empty
+directory: if the calls, in order, are legal and accepted by the reference log
+starting from the empty log, reaching `r`, no index is u64::MAX and the
+appended entries fit the payload cache, then the final store reports `r`'s
+state, every `read(a, b)` returns exactly `r`'s entries in `[a, b)` with their
+ids and payloads (and so does the dump iterator), and every call along the way
+was accepted by the store (`ok`); the system-level result of that call is the
+same `ok` unless the worker had died of an injected I/O error before (then the
+request cannot be sent and the caller sees `sendFailed`; see `c01_calls_ok`). -/
+theorem c01_refines (cfg : Cfg) (steps : List Step) (r : RefLog)
+    (hsteps : ∀ st ∈ steps, st.c01 = true)
+    (hlegal : RefLog.run {} (stepOps steps) = some r)
+    (hsmall : ∀ op ∈ stepOps steps, op.small)
+    (hitems : opsCount (stepOps steps) ≤ cfg.cacheItems)
+    (hbytes : opsBytes (stepOps steps) ≤ cfg.cacheCap) :
+    (∃ s, ((Sys.fresh cfg).run steps).store = some s ∧ s.st = r.state ∧
+      (∀ a b, (s.read ((Sys.fresh cfg).run steps).fs a b).1
+          = (r.read a b).map (fun e => ReadItem.ok e.1 e.2)) ∧
+      s.iter ((Sys.fresh cfg).run steps).fs = r.entries.map (fun e => ReadItem.ok e.1 e.2)) ∧
+    (∀ pre op post, steps = pre ++ Step.call op :: post →
+      ∃ s seg, ((Sys.fresh cfg).run pre).store = some s ∧
+        (s.call ((Sys.fresh cfg).run pre).fs.has op).1 = .ok seg ∧
+        ((((Sys.fresh cfg).run pre).call op).1 = .ok seg ∨
+          (((Sys.fresh cfg).run pre).call op).1 = .err .sendFailed)) := by
+  obtain ⟨⟨s, hs, href, _⟩, hcalls⟩ :=
+    run_sysRef steps (Sys.fresh cfg) {} r ((fresh_sysRef cfg).mono hitems hbytes) hsteps hlegal hsmall
+  exact ⟨⟨s, hs, href.st, fun a b => href.read _ a b, href.iter _⟩, hcalls⟩
+
+/-- If moreover no worker step injects an I/O error (short writes are fine),
+the worker is alive at every call, no send fails, and every call of the
+history returns `ok` at system level. -/
+theorem c01_calls_ok (cfg : Cfg) (steps : List Step) (r : RefLog)
+    (hsteps : ∀ st ∈ steps, st.c01 = true) (hio : ∀ st ∈ steps, st.noEio = true)
+    (hlegal : RefLog.run {} (stepOps steps) = some r)
+    (hsmall : ∀ op ∈ stepOps steps, op.small)
+    (hitems : opsCount (stepOps steps) ≤ cfg.cacheItems)
+    (hbytes : opsBytes (stepOps steps) ≤ cfg.cacheCap) :
+    ∀ pre op post, steps = pre ++ Step.call op :: post →
+      ∃ seg, (((Sys.fresh cfg).run pre).call op).1 = .ok seg := by
+  intro pre op post hsplit
+  obtain ⟨s, seg, hs, hok, _⟩ :=
+    (c01_refines cfg steps r hsteps hlegal hsmall hitems hbytes).2 pre op post hsplit
+  have hpre : ∀ st ∈ pre, st.c01 = true ∧ st.noEio = true := by
+    intro st hst
+    have : st ∈ steps := by rw [hsplit]; exact List.mem_append_left _ hst
+    exact ⟨hsteps st this, hio st this⟩
+  have halive := Sys.run_alive pre (Sys.fresh cfg) (fresh_alive cfg) hpre
+  exact ⟨seg, by rw [Sys.call_result_alive _ op s hs halive]; exact hok⟩
+
+/-- **Chunking is invisible.** Two configurations that differ only in the
+chunk limits (`maxRecords`, `maxSize`) report the same state and return the
+same result for every read after the same legal history (with any worker
+interleaving). -/
+theorem c01_chunking_invisible (cfg : Cfg) (maxRecords maxSize : Nat) (steps : List Step) (r : RefLog)
+    (hsteps : ∀ st ∈ steps, st.c01 = true)
+    (hlegal : RefLog.run {} (stepOps steps) = some r)
+    (hsmall : ∀ op ∈ stepOps steps, op.small)
+    (hitems : opsCount (stepOps steps) ≤ cfg.cacheItems)
+    (hbytes : opsBytes (stepOps steps) ≤ cfg.cacheCap) :
+    let y1 := (Sys.fresh cfg).run steps
+    let y2 := (Sys.fresh { cfg with maxRecords := maxRecords, maxSize := maxSize }).run steps
+    ∃ s1 s2, y1.store = some s1 ∧ y2.store = some s2 ∧ s1.st = s2.st ∧
+      (∀ a b, (s1.read y1.fs a b).1 = (s2.read y2.fs a b).1) ∧ s1.iter y1.fs = s2.iter y2.fs := by
+  intro y1 y2
+  obtain ⟨⟨s1, hs1, hst1, hrd1, hit1⟩, _⟩ := c01_refines cfg steps r hsteps hlegal hsmall hitems hbytes
+  obtain ⟨⟨s2, hs2, hst2, hrd2, hit2⟩, _⟩ :=
+    c01_refines { cfg with maxRecords := maxRecords, maxSize := maxSize } steps r hsteps hlegal hsmall
+      hitems hbytes
+  exact ⟨s1, s2, hs1, hs2, hst1.trans hst2.symm, fun a b => (hrd1 a b).trans (hrd2 a b).symm,
+    hit1.trans hit2.symm⟩
+
+/-! ### Non-vacuity -/
+
+/-- A concrete legal history with a truncate, a re-append in a higher term and
+a purge, interleaved with a flush and worker steps. -/
+def c01Example : List Step :=
+  [ .call (.saveVote ⟨1, 7⟩),
+    .call (.append [(⟨1, 0⟩, [1, 2, 3]), (⟨1, 1⟩, [4]), (⟨1, 2⟩, [5, 6])]),
+    .flush (some 0),
+    .worker .ok,
+    .call (.truncate 1),
+    .call (.append [(⟨2, 1⟩, [9])]),
+    .workerIdle,
+    .call (.commit ⟨2, 1⟩),
+    .call (.purge ⟨1, 0⟩),
+    .call (.saveUserData (some [42])) ]
+
+/-- The hypotheses of `c01_refines` / `c01_calls_ok` hold for it (for the
+default configuration and for one that rotates the chunk after every second
+record), and the reference log ends with one live entry. -/
+example :
+    (∀ st ∈ c01Example, st.c01 = true) ∧ (∀ st ∈ c01Example, st.noEio = true) ∧
+    RefLog.run {} (stepOps c01Example) = some
+      { vote := some ⟨1, 7⟩, last := some ⟨2, 1⟩, committed := some ⟨2, 1⟩, purged := some ⟨1, 0⟩,
+        userData := some [42], entries := [(⟨2, 1⟩, [9])] } ∧
+    (∀ op ∈ stepOps c01Example, op.small) ∧
+    opsCount (stepOps c01Example) ≤ ({} : Cfg).cacheItems ∧
+    opsBytes (stepOps c01Example) ≤ ({} : Cfg).cacheCap ∧
+    opsCount (stepOps c01Example) ≤ ({ maxRecords := 2 } : Cfg).cacheItems := by
+  refine ⟨by decide, by decide, by decide, ?_, by decide, by decide, by decide⟩
+  intro op hop
+  simp only [c01Example, stepOps, List.mem_cons, List.not_mem_nil, or_false] at hop
+  rcases hop with h | h | h | h | h | h | h <;> subst h <;>
+    simp [Op.small, smallId, U64]
+
+/-- And the implementation side of the same history, with chunk rotation after
+every second record, computed by the model: the read returns the reference
+log's single live entry. -/
+example :
+    ∃ s, ((Sys.fresh { maxRecords := 2 }).run c01Example).store = some s ∧
+      (s.read ((Sys.fresh { maxRecords := 2 }).run c01Example).fs 0 10).1 = [ReadItem.ok ⟨2, 1⟩ [9]] ∧
+      s.closed.length = 7 := by
+  refine ⟨_, rfl, ?_, ?_⟩ <;> decide
+
+end RaftLog
